@@ -128,7 +128,7 @@ Qed.
 
 (* ---- validReferral (for a referral that has an NS record: info.nsRecord != nil) *)
 Definition t_info (owner : name) (i : dinfo) : T_delegationInfo :=
-  mk_T_delegationInfo (mk_T_NS (mk_T_RR_Header (pres owner) T_NS (di_class i) (di_ttl i) 0) [])
+  mk_T_delegationInfo (map (fun h => (pres h, true)) (di_hosts i)) (mk_T_NS (mk_T_RR_Header (pres owner) T_NS (di_class i) (di_ttl i) 0) [])
                       (di_ttl i) (di_has_soa i) (di_incoherent i).
 
 Lemma gen_validReferral fuel i owner auth q :
